@@ -17,7 +17,8 @@ ASAN_THOROUGH = True   # thorough tier runs against the AddressSanitizer build
 RULE = ("A mapped function F generated from the vocabulary (stateless sum, stateful accumulator / counter, self-scheduling timer, "
         "optionally consuming the key and a broadcast argument, 1-3 chained nodes) is applied with map_ to a scripted TSD[int,TS[int]] "
         "whose key history has adds, updates, removes, re-adds in later cycles, several keys per cycle and growth bursts across 8/16/32 "
-        "live keys. The oracle runs F ALONE - one inlined copy per (key, lifetime) in a second engine run, fed exactly that key's element "
+        "live keys; a quarter of the cases are NESTED maps (a TSD[int,TSD[int,TS[int]]] whose mapped function maps the inner function over each "
+        "element, compared per outer key with the inner map_ run alone on that key's element stream). The oracle runs F ALONE - one inlined copy per (key, lifetime) in a second engine run, fed exactly that key's element "
         "ticks, the key, and the broadcast value sampled at the appearance - and requires, per key and lifetime, the same (time, value) "
         "stream inside the map output, the output key set = live keys whose instance has produced a value, removal deltas at the "
         "removal cycle, one child start per appearance and one stop per removal. Non-trivial = a re-add of a removed key with a "
@@ -101,8 +102,130 @@ def case(draw, tier):
     return {"start": start, "end": end, "F": F, "use_key": use_key, "use_b": use_b, "script": script, "b_script": b_script, "flags": sorted(flags), "d2": d2}
 
 
+@st.composite
+def nested_case(draw, tier):
+    """map_ inside map_: the outer dictionary's elements are dictionaries, the mapped function maps an inner function over them"""
+    big = tier == "thorough"
+    start = draw(st.sampled_from([0, 0, 3]))
+    horizon = draw(st.integers(5, 30 if big else 14))
+    body, ret, flags = draw(fn_body([{"arg": 0}], horizon))
+    if {"arg": 0} not in body[0]["ins"]:
+        body[0]["ins"] = [{"arg": 0}] + body[0]["ins"][:1]
+        body[0]["coef"] = [1] * len(body[0]["ins"])
+    F = {"params": ["TS[int]"], "names": ["x"], "out": "TS[int]", "stmts": body, "ret": ret}
+    opts = {"cancel": True, "multi": True, "no_rewrite": True, "keys": draw(st.sampled_from([2, 4]))}
+    script = draw(tm.history(("TSD", "int", ("TSD", "int", ("TS", "int"))), start, horizon, opts, max_cycles=10 if big else 7))
+    return {"kind": "nested", "start": start, "end": start + horizon, "F": F, "script": script, "flags": sorted(flags)}
+
+
 def strategy(tier):
-    return case(tier)
+    return st.one_of(case(tier), case(tier), case(tier), nested_case(tier))
+
+
+def norm_dd(d):
+    """canonical form of a TSD[int,TS[int]] delta dump"""
+    d = d or {}
+    return (tuple(sorted(d.get("removed") or [])), tuple(sorted((k, v) for k, v in (d.get("modified") or []))))
+
+
+def check_nested(case, ctx) -> Result:
+    res = Result()
+    start, end, F = case["start"], case["end"], case["F"]
+    inner_schema = ("TSD", "int", ("TS", "int"))
+    # outer key lifetimes and the element operations that fall into each of them
+    m = tm.M(("TSD", "int", inner_schema))
+    live, lts = {}, []
+    for t, ops in case["script"]:
+        pre = set(m.value)
+        m.begin_cycle()
+        per_key = {}
+        for op in ops:
+            m.apply(op, t)
+            for o in op["ops"]:
+                if o[0] == "at":
+                    per_key.setdefault(o[1], []).append(o[2])
+        post = set(m.value)
+        for k in sorted(pre - post):
+            lt = live.pop(k)
+            lt[2] = t
+            lts.append(lt)
+        for k in sorted(post - pre):
+            live[k] = [k, t, None, []]
+        for k in post:
+            if k in per_key:
+                live[k][3].append([t, per_key[k]])
+    lts += [lt for _, lt in sorted(live.items())]
+    FO = {"params": ["TSD[int,TS[int]]"], "names": ["x"], "out": "TSD[int,TS[int]]", "ret": "im",
+          "stmts": [{"id": "im", "op": "op", "name": "map_", "args": [{"fn": "F"}, {"ts": {"arg": 0}}], "has_out": True}]}
+    prog = {"start": start, "end": end, "subs": {"F": F, "FO": FO}, "stmts": [
+        {"id": "d", "op": "src", "schema": "TSD[int,TSD[int,TS[int]]]", "script": case["script"]},
+        {"id": "m", "op": "op", "name": "map_", "args": [{"fn": "FO"}, {"ts": "d"}], "has_out": True},
+        {"id": "rec", "op": "node", "ins": ["m"], "deep": True, "valid": []}]}
+    resp = ctx.run(prog)
+    if resp.get("crash"):
+        res.violations.append(Viol("engine_crash", f"nested map_ run: worker died {resp.get('signal')} {resp.get('stderr', '')[-500:]}"))
+        return res
+    if not resp.get("built"):
+        raise Rejected(f"C10 generator produced a nested-map program the tree rejects: {resp.get('error')}")
+    if resp.get("error"):
+        res.violations.append(Viol("run_failed", f"nested map_ run threw: {resp['error']}", {"nested_map": True}))
+        return res
+    solo = []
+    for i, (k, ta, trm, xs) in enumerate(lts):
+        solo += [{"id": f"x{i}", "op": "src", "schema": "TSD[int,TS[int]]", "script": xs},
+                 {"id": f"f{i}", "op": "op", "name": "map_", "args": [{"fn": "F"}, {"ts": f"x{i}"}], "has_out": True},
+                 {"id": f"r{i}", "op": "node", "ins": [f"f{i}"], "deep": True, "valid": []}]
+    exp = {}      # (t, outer key) -> normalised inner delta
+    if lts:
+        sresp = ctx.run({"start": start, "end": end, "stmts": solo, "subs": {"F": F}})
+        if sresp.get("crash") or not sresp.get("built") or sresp.get("error"):
+            raise HarnessError(f"C10 nested solo program failed: {sresp.get('error') or sresp.get('signal')}")
+        st_ = Trace(sresp["trace"])
+        for i, (k, ta, trm, xs) in enumerate(lts):
+            hi = trm if trm is not None else end
+            for d in st_.evals_of(f"r{i}", "r"):
+                inp = d["ins"][0]
+                if inp["m"] and ta <= d["t"] < hi:
+                    exp[(d["t"], k)] = norm_dd(inp.get("dv"))
+    got, got_removed = {}, {}
+    for d in Trace(resp["trace"]).evals_of("rec", "r"):
+        inp = d["ins"][0]
+        if not inp["m"]:
+            continue
+        delta = inp.get("dv") or {}
+        for k, cd in delta.get("modified") or []:
+            got[(d["t"], k)] = norm_dd(cd)
+        if delta.get("removed"):
+            got_removed[d["t"]] = set(delta["removed"])
+    feats = {"nested_map": True, "flags": ",".join(case["flags"])}
+    for key in sorted(set(exp) | set(got)):
+        if exp.get(key) != got.get(key):
+            clause = "key_tick_missing" if key not in got else "key_tick_unexpected" if key not in exp else "key_stream_value_differs"
+            res.violations.append(Viol(clause, f"t={key[0]} outer key {key[1]}: the nested map's element delta is {got.get(key)}, the inner map_ run alone on that key's element stream gives {exp.get(key)}", feats))
+            break
+    else:
+        for i, (k, ta, trm, xs) in enumerate(lts):
+            produced = any(kk == k and ta <= t < (trm if trm is not None else end) for (t, kk) in exp)
+            if trm is not None and trm < end and produced and k not in got_removed.get(trm, set()):
+                res.violations.append(Viol("removed_keys_differ", f"t={trm}: outer key {k} left the source dictionary after its instance had produced output but the map output did not remove it (removed: {sorted(got_removed.get(trm, set()))})", feats))
+                break
+        ended = {(trm, k) for (k, ta, trm, xs) in lts if trm is not None}
+        for t, ks in sorted(got_removed.items()):
+            bad = [k for k in ks if (t, k) not in ended]
+            if bad:
+                res.violations.append(Viol("removed_keys_differ", f"t={t}: the map output removed outer keys {bad} that are still in the source dictionary", feats))
+                break
+    readd = len({k for k, *_ in lts}) < len(lts)
+    inner_removals = any(o[0] == "erase" for (_, _, _, xs) in lts for _, ops in xs for op in ops for o in op["ops"])
+    res.nontrivial = bool(lts) and (readd or inner_removals) and bool(case["flags"])
+    res.labels.append("nested_map")
+    if readd:
+        res.labels.append("re_add")
+    if inner_removals:
+        res.labels.append("inner_key_removed")
+    res.labels += case["flags"]
+    res.summary = {"lifetimes": [(k, ta, trm) for k, ta, trm, _ in lts][:12], "flags": case["flags"]}
+    return res
 
 
 def lifetimes(script, end):
@@ -132,6 +255,8 @@ def lifetimes(script, end):
 
 
 def check(case, ctx) -> Result:
+    if case.get("kind") == "nested":
+        return check_nested(case, ctx)
     res = Result()
     start, end = case["start"], case["end"]
     F = case["F"]
